@@ -3591,16 +3591,6 @@ def guided(func, score, max_rounds=30, budget=2500, dirty=None):
         if ap:
             func.body[a:b] = shell.body
             applied.extend(ap)
-    # the windows see only the part of the reference between their matched neighbours; where identical lines occur several times (two loops
-    # with the same header) that part can be cut wrongly.  One bounded pass over the whole function picks up what is left
-    try:
-        left = sorted(dirty(func))
-    except Exception:
-        left = []
-    if left:
-        Ctx.window_outside = []
-        ap = _search(func, score, 6, 600)
-        applied.extend(ap)
     return applied
 
 
